@@ -136,6 +136,9 @@ func hasInexact(v any) bool {
 }
 
 func (c08) Run(c *fw.Case) {
+	if c.Idx%6 == 5 {
+		failedCalls(c) // call history: failed calls before the case must leave nothing behind
+	}
 	r := c.R
 	var doc any
 	draft := gen.D2020
